@@ -21,9 +21,12 @@ META = {
                   'compatibleC_complete, compatibleC_sound_partial, compatible_with_own_description (a datatype and the type rebuilt from its '
                   'description are compatible both ways), copyC_equiv (the copy validates like the original, LimitsType order test included), '
                   'rebuildC_equiv_partial.  Scaled limits: scaled_description_exact / _only_if (the integers exported as min / max denote the '
-                  'limits exactly when the limits are grid aligned, wherever the float quotient limit/scale lands), rebuild_snaps / copy_snaps '
-                  '(for EVERY well-formed tree the description is a fixed point of the round trip and the rebuilt type / the copy is the tree '
-                  'with every scaled limit moved to its grid value; hypothesis GridStable), snapLimits_aligned.  '
+                  'limits exactly when the limits are grid aligned, wherever the float quotient limit/scale lands), snapLimits_same_behaviour '
+                  '(repaired ScaledInteger.validate, fd5b705: a tree and the tree with every scaled limit moved to its grid value have the same '
+                  'validate / __call__ / import_value), rebuild_snaps / copy_snaps / copy_equiv_snaps / command_rebuild_snaps (rebuild_equiv and '
+                  'copy_equiv for EVERY well-formed tree whose scaled limits have finite grid values, on the grid or NOT: the description is a fixed '
+                  'point of the round trip, the rebuilt type / the copy validates and imports exactly like the ORIGINAL, the copy is the tree with '
+                  'every scaled limit moved to its grid value; hypothesis GridStable), snapLimits_aligned.  '
                   'Commands: compatibleCmd_reduces / compatibleCmd_complete, command_rebuild_equiv (export_datatype / '
                   "DATATYPES['command'] / copy of a CommandType).  Users of compatible(): "
                   'proxy_own_description_silent, proxy_own_command_silent (the proxy check logs nothing against the own description), '
@@ -40,7 +43,7 @@ META = {
                   'rebuildC_equiv_partial excludes LimitsType (its order test is not in the description: recorded finding, '
                   'rebuildC_equiv_fails_limits proved). '
                   'Trusted: Lean kernel + axioms propext/Classical.choice/Quot.sound; LawfulFloatOps and CompatLaws for binary64 (both '
-                  'proved for the exact carrier Rat); scaled limits grid aligned and within the grid-law region (|index| <= 2^31).',
+                  'proved for the exact carrier Rat); scaled limits within the grid-law region (|index| <= 2^31); compatible_* : scaled limits grid aligned.',
     'trusted': [
         'binary64 restricted to non-NaN values satisfies LawfulFloatOps (Base/Num.lean) and CompatLaws (Base/NumCompat.lean): tolerance '
         'band order convex for relative_resolution <= 1, x - p <= x <= x + p for p >= 0, integers between convertible integers convert, '
@@ -67,9 +70,10 @@ META = {
     ],
     'assumptions': ['generalConfig.lazy_number_validation is False (default)',
                     'scaled integers have grid-aligned limits in the strict sense limit == index * scale as floats (quantifier of the '
-                    'property; the Lean monitor judgeRebuilt tests it with exportableB); a limit written as a decimal literal that is not '
+                    'property; compatible_sound_partial / compatible_complete have it as GridAligned); a limit written as a decimal literal that is not '
                     'such a product (0.7 with scale 0.1: 7 * 0.1 = 0.7000000000000001) is outside: the round trip moves it by one ulp '
-                    '(remark in ScaledInteger.checkProperties) — for such trees only the description is judged and model == code is compared',
+                    '(remark in ScaledInteger.checkProperties) — since the repair fd5b705 this changes no behaviour, and the rebuild / copy streams '
+                    'judge ALL clauses (behaviour included) for such trees too, as long as the grid values of the limits are finite (judgeRebuilt: snapLimits)',
                     'relative_resolution < 1 on the second type of a pair (hypothesis ResLeOne of compatible_sound_partial; recorded finding otherwise)',
                     'datainfo given to get_datatype: enum values are JSON integers, scale is a JSON number, optional is a list',
                     'the member of a LimitsType is a number kind (FloatRange, IntRange, ScaledInteger); TextType as constructed '
@@ -1910,7 +1914,7 @@ def run(ctx):
                 for qc in quotient_classes(c['tree']):
                     res.count('scaled.limit/scale=' + str(qc))
                 if any(True for _ in scaled_leaves(c['tree'])):
-                    res.count(f'{k}.scaled-limits=' + ('grid-aligned' if ans.get('aligned') else 'not-aligned(description only)'))
+                    res.count(f'{k}.scaled-limits=' + ('grid-aligned' if ans.get('aligned') else 'not-aligned(behaviour judged)' if ans.get('snappable') else 'no-finite-grid-value(description only)'))
                 for p in impl['probes']:
                     res.count('probe.original=' + ('ok' if isinstance(p['o'], dict) and 'ok' in p['o'] else 'bad' if p['o'] == 'bad' else 'other'))
                 if c['tree']['t'] in gen.CONTAINER_KINDS or json.dumps(impl['datainfo']).count('[') > 3:
@@ -1935,7 +1939,7 @@ def run(ctx):
                 res.traces += 1
                 res.count('command-rebuild.shape=' + ('A' if c['arg'] is not None else '-') + ('R' if c['res'] is not None else '-'))
                 res.count('command-rebuild.built=' + str(impl['rebuild']['built']).lower() + ',copy=' + str(impl['copy']['built']).lower())
-                res.count('command-rebuild.limits=' + ('grid-aligned' if ans.get('aligned') else 'not-aligned(description only)'))
+                res.count('command-rebuild.limits=' + ('grid-aligned' if ans.get('aligned') else 'not-aligned(behaviour judged)' if ans.get('snappable') else 'no-finite-grid-value(description only)'))
                 res.nontriv(c)
             elif k == 'getcmd':
                 res.count('get.command=' + ('command' if isinstance(impl, dict) and 'arg' in impl else 'bad' if impl == 'bad' else 'other'))
